@@ -6,3 +6,5 @@ import Dm.Props.C13
 #print axioms Dm.Props.C13.accepts_unique
 #print axioms Dm.Props.C13.arm_matches_iff
 #print axioms Dm.Props.C13.find_unique
+#print axioms Dm.Props.C13.same_lowering_suffices
+#print axioms Dm.Props.C13.different_lowering_breaks_roundtrip
